@@ -49,7 +49,7 @@ func (w *World) selectItems(prop, fn string) []*Item {
 	pkgsSeen := map[string]bool{}
 	defer func() {}()
 	for _, it := range w.items {
-		if it.Kind != "func" && it.Kind != "lemma" {
+		if it.Kind != "func" && it.Kind != "lemma" && it.Kind != "census" {
 			continue
 		}
 		if it.Trusted {
